@@ -23,6 +23,8 @@ let check_cl (t : toks) : string =
   expect t ";"; expect t "LATE"; let late = next t in
   expect t ";"; expect t "DISTINCT"; let distinct = next_bool t in
   expect t ";"; expect t "HANG"; let hang = next_bool t in
+  expect t ";"; expect t "TAGSBACK"; let tagsback = next_bool t in
+  expect t ";"; expect t "DISTURBED"; let disturbed = next_bool t in
   let where = Printf.sprintf "n=%d nseg=%d cut=%d end=%s delivered=%d" n nseg cut endk delivered in
   let kind_class = function "M" -> "ok" | "E" -> "rerr" | _ -> "invalid" in
   (* expected class per call: replies delivered completely before the failure count *)
@@ -33,6 +35,8 @@ let check_cl (t : toks) : string =
   let verdict = ref "OK" in
   let bad s = if !verdict = "OK" then verdict := s in
   if hang then bad ("ORACLE C10.call_never_returned " ^ where);
+  if not tagsback then bad ("ORACLE C09.tags_not_recycled " ^ where);
+  if disturbed then bad ("ORACLE C13.client_reply_disturbed_by_later_bytes " ^ where);
   if not distinct then bad ("ORACLE C09.outstanding_tags_not_distinct " ^ where);
   List.iteri (fun i (c, own) ->
       if c = "hang" then bad ("ORACLE C10.call_never_returned " ^ where)
@@ -83,6 +87,16 @@ let check_line (l : string) : string =
   let t = toks_of_line l in
   match next t with
   | "CL" -> check_cl t
+  | "CI" ->
+    let n = next_int t in let script = next t in
+    expect t ";"; expect t "RES";
+    let res = repeat_read n (fun () -> next t) in
+    expect t ";"; expect t "HANG"; let hang = next_bool t in
+    expect t ";"; expect t "TAGSBACK"; let tb = next_bool t in
+    if hang then "ORACLE C09.interleaved_call_never_returned script=" ^ script
+    else if List.exists (fun r -> r <> "ok:1") res then "ORACLE C09.interleaved_call_wrong_reply script=" ^ script ^ " res=" ^ String.concat "," res
+    else if not tb then "ORACLE C09.tags_not_recycled script=" ^ script
+    else "OK"
   | "SOAK" ->
     let n = next_int t in expect t "OK"; let ok = next_bool t in
     expect t "MAXTAG"; let _ = next_int t in expect t "DISTINCTTAGS"; let d = next_int t in
